@@ -38,7 +38,9 @@ func (h *smHarness) callback(kind, act int, ops []uint8) func(*T) {
 		defer func() {
 			h.running = false
 			if r := recover(); r != nil {
-				if isInvalid(r) {
+				if isInvalid(r) && t.failed != "" {
+					ev.end = endFail // a non-fatal failure was signalled before the skip: the test case is falsified here
+				} else if isInvalid(r) {
 					if t.draws == draws0 {
 						ev.end = endSkipNoDraw
 					} else {
